@@ -46,8 +46,11 @@ def run(ck: Check) -> int:
         for fl in (base | W.GLOBSTAR, base | W.GLOBSTAR | W.EXTMATCH | W.DOTMATCH, base | W.GLOBSTARLONG | W.MATCHBASE | W.EXTMATCH):
             for p in gen.exhaustive(alpha, 4 if quick else 5):
                 cases.append((p, fl, False))
+        for fl in (base | W.GLOBSTAR | W.EXTMATCH, base | W.GLOBSTARLONG | W.EXTMATCH | W.DOTMATCH | W.FOLLOW, base | W.EXTMATCH | W.MATCHBASE | W.GLOBSTAR):
+            for p in gen.token_sequences(3 if quick else 4):
+                cases.append((p, fl, False))
         streams.k1(sr, drv, cases)
-        sr.note = 'K1 regex text under PATHNAME with {GLOBSTAR,GLOBSTARLONG,MATCHBASE,DOTGLOB,EXTGLOB,NODOTDIR,REALPATH,IGNORECASE,_TRANSLATE}'
+        sr.note = 'K1 regex text (incl. every sequence of <= 3/4 parser-state tokens) under PATHNAME with {GLOBSTAR,GLOBSTARLONG,MATCHBASE,DOTGLOB,EXTGLOB,NODOTDIR,REALPATH,IGNORECASE,_TRANSLATE}'
     ck.stream('K1-parse-text', s_k1)
 
     paths = P.path_set(False)
